@@ -263,8 +263,28 @@ func runC05(rep Rep, w World) {
 
 var c05Opts = func() worldOpts { o := histOpts; o.forceOrdered = true; o.untyped = true; return o }()
 
+// genC05: the ordered worlds; now and then with claim templates and one pod whose volumes do not cover them (its
+// storage is repaired in place - the one pod-control call after which an ordered pass keeps going), the repair
+// meeting a 422 at the first pod update of some reconcile
+func genC05(rt *rapid.T) World {
+	w := genWorld(rt, c05Opts)
+	if len(w.Pods) > 0 && rapid.IntRange(0, 5).Draw(rt, "storageRepair") == 0 {
+		if w.Spec.Claims == 0 {
+			w.Spec.Claims = 1
+		}
+		w.Pods[rapid.IntRange(0, len(w.Pods)-1).Draw(rt, "storageRepairPod")].NoClaimVolumes = true
+		for i := range w.Ops {
+			if op := &w.Ops[i]; op.K == OpReconcile && op.FaultAt == 0 && rapid.IntRange(0, 1).Draw(rt, "repairRejected") == 0 {
+				op.FaultAt, op.Fault = -6, FInvalid
+				break
+			}
+		}
+	}
+	return w
+}
+
 func TestC05(t *testing.T) {
-	checkCases(t, "C05", func(rt *rapid.T) World { return genWorld(rt, c05Opts) }, runC05)
+	checkCases(t, "C05", genC05, runC05)
 }
 func TestRegressC05(t *testing.T) { regress(t, "C05", runC05) }
 
